@@ -63,3 +63,9 @@ int rename(const char *a, const char *b) {
     if (on("WALRUS_FAULT_RENAME")) { errno = EIO; return -1; }
     return real(a, b);
 }
+int msync(void *addr, size_t len, int flags) {
+    static int (*real)(void *, size_t, int) = 0;
+    if (!real) real = dlsym(RTLD_NEXT, "msync");
+    if (on("WALRUS_FAULT_FSYNC")) { errno = EIO; return -1; }
+    return real(addr, len, flags);
+}
